@@ -783,12 +783,27 @@ pub fn install_panic_hook() {
             eprintln!("    PANIC in {:?}: {text}", std::thread::current().name());
         }
         mdns_sd::verif::note_panic(text.clone());
+        // harness-side panics outside a guarded call are machinery errors: keep the last one
+        // globally so that main can report it
+        if std::thread::current().name() != Some("mDNS_daemon_sim") && msg != "FUEL" {
+            if let Ok(mut g) = LAST_HARNESS_PANIC.lock() {
+                if !msg.contains("scoped thread panicked") {
+                    *g = Some(text.clone());
+                }
+            }
+        }
         LAST_PANIC.with(|p| *p.borrow_mut() = Some(text));
     }));
 }
 
+static LAST_HARNESS_PANIC: Mutex<Option<String>> = Mutex::new(None);
+
 pub fn take_panic() -> Option<String> {
     LAST_PANIC.with(|p| p.borrow_mut().take())
+}
+
+pub fn last_harness_panic() -> Option<String> {
+    LAST_HARNESS_PANIC.lock().ok().and_then(|g| g.clone())
 }
 
 /// Normalises a panic text into a signature fragment: source file name, and the message with
